@@ -88,6 +88,10 @@ def raws_for(row, tier):
         for n in pts:
             out.add(n.to_bytes(body, "big"))
     if kind == "string":
+        for word in (b"MASK", b"TMASK", b"Invalid", b"None", b"(missing)"):      # texts that spell a flag: still plain strings
+            if len(word) <= w:
+                out.add(word + bytes(w - len(word)))
+                out.add(word + b"\x00" + b"Z" * (w - len(word) - 1) if len(word) < w else word)
         for pos in range(w):
             for fill in (0x41, 0x7F, 0x01):
                 b = bytearray([fill] * w)
@@ -114,7 +118,19 @@ def check_value(res, cls, row, raw):
     for i, b in enumerate(raw):
         lst[row[3] + i] = b
     try:
-        got = M.lib_norm(cls.from_list(lst))
+        raw_result = cls.from_list(lst)
+        got = M.lib_norm(raw_result)
+        # "either a value or one of the flags": a plain value must never pass for a flag (==, in, set / dict membership)
+        if type(raw_result).__name__ != "FlagValue":
+            from dali.memory.location import FlagValue
+            flags = list(FlagValue)
+            try:
+                confused = [f.name for f in flags if raw_result == f or f == raw_result] or \
+                    (["(set membership)"] if raw_result in set(flags) else [])
+            except TypeError:
+                confused = []
+            if confused:
+                add_violation(res, f"C11:value-equals-flag:{row[1]}", f"{row[1]} raw {raw.hex()}: the plain value {raw_result!r} compares equal to flag {confused}", case)
     except Exception as e:
         add_violation(res, f"C11:raises:{row[1]}", f"{row[1]} raw {raw.hex()}: interpretation raised {e!r}", case)
         return "EXC"
@@ -123,7 +139,7 @@ def check_value(res, cls, row, raw):
         add_violation(res, f"C11:decode:{row[1]}", f"{row[1]} raw {raw.hex()}: library {got!r}, reference {exp!r}", case)
     if got is None:
         add_violation(res, f"C11:none:{row[1]}", f"{row[1]} raw {raw.hex()} interpreted as None", case)
-    return exp if exp in (M.MASK, M.TMASK, M.INVALID) else "value"
+    return exp.name if any(exp is f for f in (M.MASK, M.TMASK, M.INVALID)) else "value"
 
 
 def run_shard(shard):
@@ -220,7 +236,7 @@ def run_shard(shard):
                     if bytes(raw) != n.to_bytes(w, "big"):
                         add_violation(res, f"C11:inverse-bytes:{key[1]}", f"{key[1]}.value_to_raw({n}) -> {bytes(raw).hex()}", case)
                     exp = M.ref_decode(row, raw)
-                    if exp not in (M.MASK, M.TMASK, M.INVALID):
+                    if not any(exp is f for f in (M.MASK, M.TMASK, M.INVALID)):
                         back = cls.raw_to_value(bytes(raw))
                         if back != n:
                             add_violation(res, f"C11:inverse-roundtrip:{key[1]}", f"{key[1]}: {n} -> {bytes(raw).hex()} -> {back}", case)
